@@ -291,9 +291,12 @@ StringDictionaryRPHTFC::StringDictionaryRPHTFC(IteratorDictString *it,
 
     delete[] tmp;
 
-    // bytesStrings++;
-    xblStrings.push_back(bytesStrings + 1);
-    blStrings = new LogSequence(&xblStrings, bits(bytesStrings + 1));
+    // The byte following the sequence is also part of it because the last
+    // position in blStrings points to bytesStrings
+    textStrings[bytesStrings] = 0;
+    bytesStrings++;
+    xblStrings.push_back(bytesStrings);
+    blStrings = new LogSequence(&xblStrings, bits(bytesStrings));
 
     maxcomplength +=
         4; // The value is increased because advanced readings in decoding...
